@@ -359,6 +359,27 @@ def rule_Q2(ctx):
     ctx.ob("Q2", pc, "the first FILE entry is the cue sheet's meaning", ok, f"{rc}", inst="first-file")
 
 
+def rule_Q5(ctx):
+    """the cue sheet text handed to the parser is the whole file: every line, whatever the file's size"""
+    pt = ctx.fn(ACT, "parse_text_file", "Q5")
+    from .util import path_call_keys as _pk5, return_keys as _rk5
+    opens = [c for c in own_nodes(pt) if isinstance(c, ast.Call) and norm(c.func) == "open"]
+    withs = [w for w in own_nodes(pt) if isinstance(w, ast.With) and len(w.items) == 1 and w.items[0].context_expr in opens and isinstance(w.items[0].optional_vars, ast.Name)]
+    fh = withs[0].items[0].optional_vars.id if withs else None
+    if fh is None:
+        fh_as = [a for a in own_nodes(pt) if isinstance(a, ast.Assign) and a.value in opens and isinstance(a.targets[0], ast.Name)]
+        fh = fh_as[0].targets[0].id if fh_as else None
+    if fh is None:
+        raise AnalysisError("Q5", where(pt), "file handle of the text probe not found")
+    whole = set()
+    for h_ in (fh, "(" + evaluator(ctx, pt, {}).ev(opens[0]).key() + ")"):
+        whole |= {f"{h_}.readlines()", f"list({h_})", f"({h_}.read()).splitlines()", f"({h_}.read()).splitlines(1)"}
+    rks = _rk5(ctx, pt, "Q5")
+    ok = bool(rks) and all(k_ in whole for k_ in rks)
+    ctx.ob("Q5", pt, "the text probe returns every line of the file (no size limit on what is read)", ok,
+           "" if ok else f"returns {sorted(str(k_) for k_ in rks)}: a size hint / partial read drops the lines - and the tracks - after it", inst="whole-file")
+
+
 def rule_Q3(ctx):
     pt = ctx.fn(ACT, "parse_text_file", "Q3")
     opens = [c for c in own_nodes(pt) if isinstance(c, ast.Call) and norm(c.func) == "open"]
